@@ -123,7 +123,16 @@ void DataSet::getData(T &value, const NDSize &count, const NDSize &offset) const
     DataType dtype = hydra.element_data_type();
 
     hydra.resize(count);
-    getData(dtype, hydra.data(), count, offset);
+
+    // to a DataView an empty count means "all of it": a single value asks for one element
+    NDSize real = count;
+    if (! real) {
+        real = hydra.shape();
+    }
+    if (! real) {
+        real = NDSize(dataExtent().size(), 1);
+    }
+    getData(dtype, hydra.data(), real, offset);
 }
 
 template<typename T>
@@ -136,6 +145,9 @@ void DataSet::getData(T &value, const NDSize &offset) const
     if (! count) {
         count = NDSize(offset.size(), 1);
     }
+    if (! count) {
+        count = NDSize(dataExtent().size(), 1);
+    }
     getData(dtype, hydra.data(), count, offset);
 }
 
@@ -147,6 +159,10 @@ void DataSet::setData(const T &value, const NDSize &offset)
 
     DataType dtype = hydra.element_data_type();
     NDSize shape = hydra.shape();
+    if (! shape) {
+        // a single value is one element (an empty count would mean "all of it" to a DataView)
+        shape = NDSize(offset ? offset.size() : dataExtent().size(), 1);
+    }
 
     setData(dtype, hydra.data(), shape, offset);
 }
